@@ -1,5 +1,9 @@
 """C13 — unsupported or degenerate orbits are refused explicitly, never answered wrongly."""
+import json
 import math
+import os
+import subprocess
+import sys
 import warnings
 
 import numpy as np
@@ -22,7 +26,12 @@ RULE = ("checksum-valid TLEs over the printable range of every field (mean motio
         "time ARRAYS mixing decayed and answered instants of one element set (decaying families; instants classified by the "
         "published model's state on a dense grid - r_k < 1, a < 1, e < -1e-3 - or one by one when no model driver is available): "
         "the decayed instant in every position of an array of 1-4 answered instants must make the call fail, an array of "
-        "answered instants must be answered, finite and equal to the one-by-one answers; distinct = (tle, minutes)")
+        "answered instants must be answered, finite and equal to the one-by-one answers; SEVERAL LIVE objects: satellite A (near-earth "
+        "with perigee >= 220 km and any drag, or refused / decaying) is asked before and after 1-2 satellites of another regime (high or "
+        "low drag, perigee below 220 km, deep space, out of range) are constructed and kept alive, at the same and at other times, "
+        "interleaved with queries of the others: every outcome class and answered state must be the one recorded for those "
+        "elements before the others existed (and, for a sample, the one of a freshly imported pyorbital in a child "
+        "interpreter); distinct = (tle, minutes)")
 ASSUMPTIONS = ["cases within 1e-9 relative of a threshold (225 min, 220 km, element limits) are excluded from the oracle's "
                "class assertion (float rounding of the threshold comparison), not from the correspondence",
                "'an exception' for decay means any exception type, as the statement says"]
@@ -261,6 +270,7 @@ def oracle(ctx):
     if drv:
         oracle_radius_decay(ctx, drv)
     oracle_mixed_arrays(ctx, drv)
+    oracle_live_objects(ctx)      # last: the random streams of the clauses above stay as they were
 
 
 def _outcome(o, t_min):
@@ -418,7 +428,8 @@ def check_alive_array(ctx, l1, l2, mins, report=True):
     for k, s_ in enumerate(singles):
         one = np.array(s_[1], dtype=float)
         arr = np.concatenate([pos[:, k], vel[:, k]])
-        if not np.allclose(arr, one, rtol=0, atol=ARRAY_TOL):
+        # (relative part: a diverged drag polynomial answers with 1e10 km, where one unit in the last place is 2e-6 km)
+        if not np.allclose(arr, one, rtol=1e-12, atol=ARRAY_TOL):
             if report:
                 ctx.violation("array_differs_from_single", dict(case, index=k), arr.tolist(), "the answer for that instant alone: %r" % one.tolist(),
                               site="Orbital.get_position")
@@ -544,6 +555,210 @@ def oracle_mixed_arrays(ctx, drv):
                     check_alive_array(ctx, l1, l2, a_mins)
 
 
+
+# --------------------------------------------------------------------------- several live objects
+STATE_TOL = 1e-9     # km, km/s: as seq_outcomes (the same elements and time asked again)
+
+_CHILD_SRC = r"""
+import json, os, sys, warnings
+sys.path.insert(0, os.environ["PV_REPO"])
+import numpy as np
+out = []
+for l1, l2, mins in json.loads(sys.stdin.read()):
+    for k in [k for k in sys.modules if k == "pyorbital" or k.startswith("pyorbital.")]:
+        del sys.modules[k]                      # a freshly imported pyorbital for every element set
+    from pyorbital import orbital
+    res = []
+    with warnings.catch_warnings():
+        warnings.simplefilter("ignore")
+        with np.errstate(all="ignore"):
+            try:
+                o = orbital.Orbital("x", line1=l1, line2=l2)
+            except Exception as ex:
+                out.append(["not-built", type(ex).__name__])
+                continue
+            for t in mins:
+                tt = o.tle.epoch + np.timedelta64(int(round(t * 60e6)), "us")
+                try:
+                    pos, vel = o.get_position(tt, normalize=False)
+                    res.append(["answered", [float(x) for x in pos] + [float(x) for x in vel]])
+                except Exception as ex:
+                    res.append([type(ex).__name__, None])
+    out.append(["built", res])
+json.dump(out, sys.stdout)
+"""
+
+
+def alone_in_child(items):
+    """[(line1, line2, [minutes])] -> per item ["not-built", exception name] or ["built", [outcome per minute]], each element
+    set on its own in a child interpreter with a freshly imported pyorbital (no other satellite has ever been constructed)."""
+    env = dict(os.environ)
+    env["PV_REPO"] = lib.REPO
+    cmd = [sys.executable] + (["-O"] if sys.flags.optimize else []) + ["-c", _CHILD_SRC]
+    p = subprocess.run(cmd, input=json.dumps(items).encode(), stdout=subprocess.PIPE, stderr=subprocess.PIPE, env=env, timeout=600)
+    if p.returncode != 0:
+        raise RuntimeError("child interpreter failed: " + p.stderr.decode()[-600:])
+    return json.loads(p.stdout.decode())
+
+
+def _build(l1, l2):
+    from pyorbital import orbital
+    with warnings.catch_warnings():
+        warnings.simplefilter("ignore")
+        with np.errstate(all="ignore"):
+            try:
+                return orbital.Orbital("x", line1=l1, line2=l2), None
+            except Exception as ex:  # noqa
+                return None, type(ex).__name__
+
+
+def _same_outcome(got, want):
+    if got[0] != want[0]:
+        return False
+    if got[1] is None or want[1] is None:
+        return got[1] is None and want[1] is None
+    return bool(np.allclose(got[1], want[1], rtol=0, atol=STATE_TOL))
+
+
+def live_objects_case(ctx, a, others, t_same, t_other, t_b, child_ref=None, report=True):
+    """The outcome class (and the answered state) is a function of the elements and the time, whatever other satellites
+    exist.  References: every element set alone (one object, constructed, asked and dropped BEFORE the next one is
+    constructed - the others first, A last; or `child_ref`, the answers of a freshly imported pyorbital in a child
+    interpreter).  Then A is constructed and asked t_same; the others are constructed one after the other and KEPT; A is asked
+    t_same again and t_other (never asked of this object before); the others are asked t_b; A is asked everything again.
+    Returns "violated" or a pattern string."""
+    a = list(a)
+    others = [list(b) for b in others]
+    t_all = list(t_same) + list(t_other)
+    case = {"live": True, "line1": a[0], "line2": a[1], "others": others, "t_same": list(t_same), "t_other": list(t_other), "t_b": list(t_b)}
+
+    def alone(l1, l2, mins):
+        o, exn = _build(l1, l2)
+        if o is None:
+            return ["not-built", exn]
+        return ["built", [list(_outcome(o, t)) for t in mins]]
+
+    if child_ref is None:
+        refs_b = [alone(b[0], b[1], t_b) for b in others]
+        ref_a = alone(a[0], a[1], t_all)
+        how = "the same elements alone, before the other satellites were constructed"
+    else:
+        ref_a, refs_b = child_ref[0], child_ref[1:]
+        how = "the same elements alone in a fresh interpreter"
+
+    def bad(k_obj, phase, t, got, want):
+        if report:
+            ctx.violation("outcome_depends_on_other_objects", dict(case, object=k_obj, phase=phase, minutes=t, reference="child" if child_ref is not None else "before"),
+                          got, "%s: %r" % (how, want), site="_SGDP4Base" if k_obj == 0 else "Orbital")
+        return "violated"
+
+    A, exn = _build(a[0], a[1])
+    if (A is None) != (ref_a[0] == "not-built") or (A is None and exn != ref_a[1]):
+        return bad(0, "construct", None, ["not-built", exn] if A is None else ["built"], ref_a)
+    want_a = dict(zip(t_all, ref_a[1])) if A is not None else {}
+
+    def ask_a(phase, mins):
+        for t in mins:
+            ctx.count("eval_oracle_live_objects")
+            got = _outcome(A, t)
+            if not _same_outcome(got, tuple(want_a[t])):
+                return bad(0, phase, t, got, want_a[t])
+        return None
+
+    if A is not None:
+        r_ = ask_a("alone", t_same)
+        if r_:
+            return r_
+    live = []
+    for k, b in enumerate(others):
+        B, exn = _build(b[0], b[1])
+        rb = refs_b[k]
+        if (B is None) != (rb[0] == "not-built") or (B is None and exn != rb[1]):
+            return bad(k + 1, "construct", None, ["not-built", exn] if B is None else ["built"], rb)
+        live.append(B)
+        if A is not None:
+            r_ = ask_a("after-construction-of-other-%d" % (k + 1), t_same[:1])
+            if r_:
+                return r_
+    if A is not None:
+        r_ = ask_a("others-alive-same-times", t_same) or ask_a("others-alive-other-times", t_other)
+        if r_:
+            return r_
+    for k, B in enumerate(live):
+        if B is None:
+            continue
+        for t, want in zip(t_b, refs_b[k][1]):
+            ctx.count("eval_oracle_live_objects")
+            got = _outcome(B, t)
+            if not _same_outcome(got, tuple(want)):
+                return bad(k + 1, "other-queried", t, got, want)
+    if A is not None:
+        r_ = ask_a("after-others-queried", list(reversed(t_all)))
+        if r_:
+            return r_
+    kinds = "A:" + ("-" if A is None else "".join(w[0][0] for w in ref_a[1]))
+    for rb in refs_b:
+        kinds += " B:" + ("-" if rb[0] == "not-built" else "".join(w[0][0] for w in rb[1]))
+    return kinds
+
+
+def _live_tle(r, regime):
+    """(line1, line2) of a named regime."""
+    ov = {}
+    if regime == "norm":          # near-earth, perigee >= 220 km, B* of any printable size and sign up to 1e-2
+        ov = {"bstar": r.choice([" ", " ", "-"]) + "%05d" % r.randrange(10000, 99999) + "-" + r.choice("2334456")}
+        reg = "near"
+    elif regime == "norm-drag":   # near-earth, perigee >= 220 km, strong drag
+        ov = {"bstar": " " + "%05d" % r.randrange(10000, 99999) + "-" + r.choice("0112"),
+              "mmotion": "%11.8f" % r.uniform(14.0, 15.9), "ecc": "%07d" % r.randrange(1000, 60000)}
+        reg = "near"
+    elif regime == "low":         # perigee below 220 km (the simplified drag equations)
+        mm = r.uniform(15.9, 16.5)
+        a_ = (398600.8 / (mm * 2 * math.pi / 86400.0) ** 2) ** (1.0 / 3)
+        e_ = max(1e-6, 1 - (6378.135 + r.uniform(110, 205)) / a_)
+        ov = {"mmotion": "%11.8f" % mm, "ecc": "%07d" % min(int(e_ * 1e7), 9999999),
+              "bstar": " " + "%05d" % r.randrange(10000, 99999) + "-" + r.choice("234")}
+        reg = "near"
+    elif regime == "deep":
+        ov = {"mmotion": "%11.8f" % r.uniform(0.9, 6.2), "ecc": "%07d" % r.randrange(1, 7000000)}
+        reg = "near"
+    else:                         # anything printable
+        reg = "any"
+    _, l1, l2 = tlegen.random_tle(r, reg, overrides=ov)
+    return l1, l2
+
+
+def oracle_live_objects(ctx):
+    """Several satellites alive in one process."""
+    r = ctx.rng
+    n = ctx.size(70, 1500)
+    n_child = ctx.size(8, 60)
+    trials = []
+    for i in range(n):
+        a = _live_tle(r, r.choice(["norm", "norm", "norm", "norm-drag", "low", "any"]))
+        others = [_live_tle(r, r.choice(["norm-drag", "norm-drag", "norm", "low", "deep", "any"])) for _ in range(r.choice([1, 1, 2]))]
+        t_same = [r.choice([0.0, r.uniform(-1440, 1440)]), r.uniform(-5 * 1440, 5 * 1440), r.uniform(-60 * 1440, 60 * 1440)]
+        t_other = [r.uniform(-2 * 1440, 2 * 1440), r.uniform(-60 * 1440, 60 * 1440)]
+        t_b = [r.uniform(-1440, 1440), r.uniform(-60 * 1440, 60 * 1440)]
+        trials.append((a, others, t_same, t_other, t_b))
+    for (a, others, t_same, t_other, t_b) in trials:
+        ctx.bump("live_objects_pattern", live_objects_case(ctx, a, others, t_same, t_other, t_b).split(" ")[0])
+        ctx.distinct(("live", a, tuple(others)))
+    # a sample against a freshly imported pyorbital in a child interpreter
+    sample = trials[:n_child]
+    items = []
+    for (a, others, t_same, t_other, t_b) in sample:
+        items.append([a[0], a[1], list(t_same) + list(t_other)])
+        items += [[b[0], b[1], list(t_b)] for b in others]
+    answers = alone_in_child(items)
+    k = 0
+    for (a, others, t_same, t_other, t_b) in sample:
+        ref = answers[k:k + 1 + len(others)]
+        k += 1 + len(others)
+        ctx.count("eval_oracle_live_objects_child")
+        live_objects_case(ctx, a, others, t_same, t_other, t_b, child_ref=ref)
+
+
 def oracle_sequences(ctx):
     r = ctx.rng
     for _ in range(ctx.size(60, 1500)):
@@ -564,6 +779,13 @@ def match_known(entry, v):
 def replay(ctx, case):
     from pyorbital import orbital
     inp = case.get("input", case)
+    if inp.get("live"):
+        args = ((inp["line1"], inp["line2"]), inp["others"], inp["t_same"], inp["t_other"], inp["t_b"])
+        items = [[inp["line1"], inp["line2"], list(inp["t_same"]) + list(inp["t_other"])]] + [[b[0], b[1], list(inp["t_b"])] for b in inp["others"]]
+        r1 = live_objects_case(ctx, *args, report=False)
+        r2 = live_objects_case(ctx, *args, child_ref=alone_in_child(items), report=False)
+        print("several live objects: against the answers recorded before the others existed:", r1, "; against a fresh interpreter:", r2)
+        return 1 if "violated" in (r1, r2) else 0
     if "minutes_seq" in inp:
         r = seq_outcomes(ctx, inp["line1"], inp["line2"], inp["minutes_seq"])
         print("sequence:", r)
